@@ -18,7 +18,7 @@ def mergeAllOut (j : Json) : Json :=
   let (_, ce, cc, outs) := (getArr j "refs").foldl (fun (st : Store × Nat × Nat × List Json) r =>
     let (s, ce, cc, outs) := st
     let newHash := getStr r "newHash"
-    let mo := merge s (getStr? r "local") (getStr r "remote") ce cc newHash (getStr r "mergePackId") author
+    let mo := merge s (getStr r "id") (getStr? r "local") (getStr r "remote") ce cc newHash (getStr r "mergePackId") author
     let s' := match mo.mergeCommit with
       | some (ps, e) => s ++ [{ hash := newHash, parents := ps,
                                 pack := .ok { id := getStr r "mergePackId", author := author, ops := [], create := 0, edit := e } }]
